@@ -15,7 +15,13 @@
    out  = ok | rej:<index of the first event no execution can produce> | fuel
           (logs of up to 18 events are judged by the full hidden-step closure
           and by the reduced acceptor, which must agree; longer ones by the
-          reduced acceptor) *)
+          reduced acceptor)
+   fn   = lts_lives
+   args = mode, then the event logs of consecutive lives of ONE Server value
+          (start ... Shutdown, serve call returned; start again ...), separated
+          by the pseudo event ep
+   out  = ok | rej:<life>:<index> | notover:<life> (at the restart the log of
+          that life allows a state in which it is not over) | fuel *)
 From Dns Require Import Model.ServerLts.
 Open Scope nat_scope.
 
@@ -63,6 +69,24 @@ Fixpoint parse_events (l : list string) : option (list label) :=
               end
   end.
 
+(* split at the pseudo event ep *)
+Fixpoint split_ep (l : list string) : list (list string) :=
+  match l with
+  | [] => [[]]
+  | x :: t =>
+    let r := split_ep t in
+    if String.eqb x "ep" then [] :: r
+    else match r with h :: t' => (x :: h) :: t' | [] => [[x]] end
+  end.
+Fixpoint parse_lives (l : list (list string)) : option (list (list label)) :=
+  match l with
+  | [] => Some []
+  | x :: t => match parse_events x, parse_lives t with
+              | Some e, Some r => Some (e :: r)
+              | _, _ => None
+              end
+  end.
+
 Definition run (fn : string) (args : list string) : string :=
   if String.eqb fn "lts" then
     let m := if String.eqb (arg args 0) "udp" then UDP else TCP in
@@ -81,5 +105,17 @@ Definition run (fn : string) (args : list string) : string :=
         let r' := show (accepts m obs) in
         if String.eqb r r' then r else ("acceptors-disagree:"%string +++ r +++ "/"%string +++ r')
       else r
+    end
+  else if String.eqb fn "lts_lives" then
+    let m := if String.eqb (arg args 0) "udp" then UDP else TCP in
+    match parse_lives (split_ep (tl args)) with
+    | None => "bad-event"%string
+    | Some lives =>
+      match accepts_lives m lives 0 with
+      | LOk => "ok"%string
+      | LRej k i => "rej:"%string +++ decn k +++ ":"%string +++ decn i
+      | LNotOver k => "notover:"%string +++ decn k
+      | LFuel => "fuel"%string
+      end
     end
   else "unknown-fn"%string.
